@@ -506,10 +506,13 @@ def _add_ignores_files():
     codesets = [(), ("A",), ("B",), ("A", "B")]
     for n in (1, 2, 3):
         for texts in itertools.product(code_kinds, repeat=n):
-            for lead in (False, True):
+            # a header: nothing, a comment, a comment followed by a blank line (which ends the leading comment block)
+            for lead in ([], ["# a comment"], ["# a comment", ""]):
+                if len(lead) == 2 and n == 3:
+                    continue
                 for cs in itertools.product(codesets, repeat=n):
                     if any(cs):
-                        yield (["# a comment"] if lead else []) + list(texts), ([()] if lead else []) + list(cs)
+                        yield list(lead) + list(texts), [()] * len(lead) + list(cs)
 
 
 def _add_ignores_chunk(args):
@@ -569,7 +572,7 @@ def r16_j(prog: Program, chk: Check) -> None:
 
     chk.rule(
         "R16.j",
-        "add-ignores as a finite model: on every file of up to 3 code lines (plain or indented, optionally preceded by a plain comment) with every assignment of 0-2 diagnostic "
+        "add-ignores as a finite model: on every file of up to 3 code lines (plain or indented, optionally preceded by a plain comment or by a comment and a blank line) with every assignment of 0-2 diagnostic "
         "codes per line, repeating `report everything with add_ignores on, apply the first replacement` reaches a fixpoint with nothing reported; the code lines are unchanged and "
         "in order (same syntax tree), every inserted comment is an ignore comment, none of them is unused, and removing any one of them brings back exactly one diagnostic",
         floor=4,
@@ -594,6 +597,119 @@ def r16_j(prog: Program, chk: Check) -> None:
         chk.ob("R16.j", f"node_visitor::add-ignores-model::{k}", not bad, site, f"{counts[k]} files, {len(bad)} failing" + (f"; smallest: {bad[0]}" if bad else ""), witness=bad[:4])
 
 
+# ------------------------------------------------------------------- R16.k
+R16K_STATEMENTS = (
+    "x = {**a, 'k': v % w}",
+    "x = {'a': 1, **b, 'c': f(2)}",
+    "def g(a, /, b=1, *args, c, d=2, **kw): return a % b",
+    "h = lambda a, *, b, c=3: a % b",
+    "y = f(1, *xs, k=2, **kw) % 3",
+    "z = [i % 2 for i in it if i] + [*rest]",
+    "w = a[1:2, ::3] % b[...]",
+    "s = f'{p!r:>{q}} and {r % 2}'",
+    "t = (yield) % 2 if c else not d",
+    "async def co(): return [await e async for e in src() if e % 2]",
+    "with cm() as m, cn(): print(m % 2, end='')",
+    "try:\n    u = v % w\nexcept (A, B) as exc:\n    raise C from exc\nelse:\n    pass\nfinally:\n    del u",
+    "class K(Base, metaclass=M):\n    attr: int = 1 % 2",
+    "match q:\n    case [1, *rest] if rest % 2:\n        pass\n    case {'k': v, **others}:\n        pass\n    case P(x=1) | None:\n        pass",
+    "global_name: 'T' = cast('T', o % 1)",
+    "for i, (j, *k) in enumerate(pairs % 2):\n    continue",
+    "assert a % b, 'message'",
+    "r = a if b else (c := d % 2)",
+)
+
+
+def r16_k(prog: Program, chk: Check) -> None:
+    import copy
+
+    from ..minterp import AssertionFailed, Interp, ModelError, Obj, PyRaise, Unsupported
+
+    chk.rule(
+        "R16.k",
+        "the statement copier behind replace_node as a finite model: NodeTransformer.generic_visit and ReplaceNodeTransformer.generic_visit are interpreted from their AST on real "
+        "syntax trees - 18 statements that together use every list-valued and optional field shape of the grammar (dict displays with ** entries whose key is None, keyword-only "
+        "parameters without defaults, starred / double-starred arguments, slices, f-strings, comprehensions, try / with / match / class / async forms) - for every expression node of "
+        "the statement as the node to replace: the result equals the statement with exactly that node replaced (reference: the standard library's own ast.NodeTransformer on a "
+        "deep copy), and the original statement is not mutated",
+        floor=3,
+    )
+    nt = prog.cls("NodeTransformer")
+    rt = prog.cls("ReplaceNodeTransformer")
+    method_defs = {("ReplaceNodeTransformer", "generic_visit"): rt.methods["generic_visit"], ("NodeTransformer", "generic_visit"): nt.methods["generic_visit"]}
+
+    def run(stmt: ast.AST, target: ast.AST, replacement: ast.AST):
+        holder = []
+        tr = Obj("ReplaceNodeTransformer", node_to_replace=target, replacement=replacement)
+
+        def visit(node):
+            md = method_defs[("ReplaceNodeTransformer", "generic_visit")]
+            return holder[0].call_def(md, [tr, node], md)
+
+        tr._attrs["visit"] = visit
+        it = Interp({}, {}, (), {}, lambda v, c: None, method_defs, {}, {"ast": ast, "__super__": (lambda cur_fn, meth: nt.methods[meth]), "__native_getattr__": True})
+        holder.append(it)
+        try:
+            return visit(stmt)
+        except Unsupported as u:
+            raise AnchorError(f"NodeTransformer cannot be modelled: {u}")
+        except (AssertionFailed, PyRaise, ModelError) as e:
+            return ("crash", str(e))
+
+    class _Ref(ast.NodeTransformer):
+        def __init__(self, target_path):
+            self.target_path = target_path
+
+    def path_of(root: ast.AST, node: ast.AST):
+        for parent_ in ast.walk(root):
+            for field, value in ast.iter_fields(parent_):
+                if value is node:
+                    return (parent_, field, None)
+                if isinstance(value, list):
+                    for i, x in enumerate(value):
+                        if x is node:
+                            return (parent_, field, i)
+        return None
+
+    bad_result, bad_mutation, crashes = [], [], []
+    n = 0
+    for src in R16K_STATEMENTS:
+        stmt = ast.parse(src).body[0]
+        before = ast.dump(stmt, include_attributes=True)
+        targets = [x for x in ast.walk(stmt) if isinstance(x, ast.expr) and x is not stmt]
+        for ti, target in enumerate(targets):
+            n += 1
+            replacement = ast.Name(id="REPLACED", ctx=ast.Load())
+            d = {"statement": src, "replaced": ast.unparse(target)[:40]}
+            out = run(stmt, target, replacement)
+            if isinstance(out, tuple):
+                crashes.append({**d, "error": out[1]})
+                continue
+            # reference: deep copy, then put the replacement at the same place
+            ref = copy.deepcopy(stmt)
+            ref_targets = [x for x in ast.walk(ref) if isinstance(x, ast.expr) and x is not ref]
+            loc = path_of(ref, ref_targets[ti])
+            if loc is None:
+                continue
+            parent_, field, i = loc
+            if i is None:
+                setattr(parent_, field, replacement)
+            else:
+                getattr(parent_, field)[i] = replacement
+            if ast.dump(out) != ast.dump(ref):
+                bad_result.append({**d, "got": ast.unparse(out)[:120] if isinstance(out, ast.AST) else repr(out), "expected": ast.unparse(ref)[:120]})
+            if ast.dump(stmt, include_attributes=True) != before:
+                bad_mutation.append(d)
+    chk.model_evaluations += n
+    chk.analysed["node_transformer_model"] = {"replacements": n}
+    site = prog.site("node_visitor", nt.methods["generic_visit"])
+    for lst in (bad_result, bad_mutation, crashes):
+        lst.sort(key=lambda x: (len(x["statement"]), repr(x)))
+    chk.ob("R16.k", "node_visitor::node-transformer-model::the copy differs from the statement in the replaced node only", not bad_result, site, f"{n} replacements, {len(bad_result)} wrong copies" + (f"; smallest: {bad_result[0]}" if bad_result else ""), witness=bad_result[:4])
+    chk.ob("R16.k", "node_visitor::node-transformer-model::the original statement is not mutated", not bad_mutation, site, f"{len(bad_mutation)} statements mutated" + (f"; first: {bad_mutation[0]}" if bad_mutation else ""), witness=bad_mutation[:3])
+    chk.ob("R16.k", "node_visitor::node-transformer-model::no-crash", not crashes, site, f"{len(crashes)} crashes" + (f"; first: {crashes[0]}" if crashes else ""), witness=crashes[:3])
+
+
 def run(prog: Program, chk: Check) -> None:
     guard(chk, r16_c, prog, chk)
     guard(chk, r16_e, prog, chk)
@@ -601,3 +717,4 @@ def run(prog: Program, chk: Check) -> None:
     guard(chk, r16_hi, prog, chk)
     guard(chk, r16_i, prog, chk)
     guard(chk, r16_j, prog, chk)
+    guard(chk, r16_k, prog, chk)
